@@ -54,6 +54,10 @@ func propC18(c *Check) {
 	c.hookFailureNeedsLastCommit("R7")
 	c.Rule("R8", "the order of a derived queue does not leak: the relayer voter queue is not exported and is rebuilt on import in voter-record order; where the running chain copies it in its (arrival) order into the persistent voter list of the group, it must be canonically ordered first")
 	c.derivedQueueOrder("R8")
+	c.Rule("R9", "the exported block-hash window is the stored one: the export reads BlockHashes downwards from the tip one height at a time, and its loop bound does not exclude height 0 (the import writes hash i of the list at height tip-i)")
+	c.exportedHashWindow("R9")
+	c.Rule("R10", "indices rebuilt on import obey the running chain's invariants: the locking genesis writes the (token, validator) index and the power ranking only for Pending/Active validators (C13/R1, R3 on the genesis functions)")
+	c.DependOn("R10", "C13", propC13, map[string]bool{"R1": true, "R3": true}, regexp.MustCompile(`x/locking/module\.`), "an index entry the running chain would never hold makes the imported chain behave differently from the exported one")
 	c.Rule("R1", "coverage: every collection of every keeper is read by its module's ExportGenesis and written by its InitGenesis, or is a derived index that InitGenesis rebuilds; every GenesisState field is assigned on export and consumed on import")
 	c.Rule("R2", "derived data obeys the runtime guards: InitGenesis ranks / indexes only Pending/Active validators, ranks only positive power, records only Active validators in the validator set, and rebuilds the voter queue from the voter status")
 	c.Rule("R3", "the exported validator set is LockingKeeper.ActiveValidators, which walks ValidatorSet and reports the recorded power and the validator's key")
